@@ -212,7 +212,7 @@ func init() {
 			if thorough {
 				return vexp.Bounds{P: 2, F: 1, E: 0}
 			}
-			return vexp.Bounds{P: 1, F: 1, E: 0}
+			return vexp.Bounds{P: 1, F: 0, E: 0}
 		},
 		Configs: func(thorough bool) []map[string]int {
 			out := []map[string]int{
